@@ -122,5 +122,12 @@ func (li *Language) Update(input UpdateInput) error {
 
 	env.Apply(input.Item, aliases, attributes)
 
+	// an attribute the expression removed is no longer in the environment
+	for field := range item {
+		if !env.Has(field) {
+			delete(input.Item, field)
+		}
+	}
+
 	return nil
 }
